@@ -273,6 +273,14 @@ def run_opm(ctx):
             ctx.sample(case)
 
 
+def _reverse_keys(o):
+    if isinstance(o, dict):
+        return {k: _reverse_keys(o[k]) for k in reversed(list(o.keys()))}
+    if isinstance(o, list):
+        return [_reverse_keys(v) for v in o]
+    return o
+
+
 def run_opm_case(ctx, case):
     hy = _hy()
     opts, context, rename = case["options"], case["context"], case["rename"]
@@ -394,6 +402,16 @@ def run_opm_case(ctx, case):
                 canon({k: as_list(v) for k, v in opm.options.items()}))
         ctx.check("opm.roundtrip-state", same, "OptionManager|roundtrip-state",
                   case, lambda: {"dict": dd2})
+        # JSON written by another tool: object keys sorted, or listed in reverse order
+        for how, txt in (("sorted-keys", json.dumps(dd, sort_keys=True)),
+                         ("reversed-keys", json.dumps(_reverse_keys(dd)))):
+            opm_s = hy.OptionManager.from_dict(json.loads(txt))
+            ctx.tag("opm:json-key-order")
+            ctx.api("to_dict/from_dict")
+            es1, es2 = (opm == opm_s), (opm_s == opm)
+            ctx.check("opm.roundtrip-eq", es1 is True and es2 is True,
+                      "OptionManager|roundtrip-eq|json-key-order", case,
+                      {"order": how, "a==b": es1, "b==a": es2})
         # the copy made through the dictionary (no JSON text in between) is then given
         # another grid with the public method: the original enumerates what it did
         # (the two objects do share their dictionaries in the unchanged library; editing
@@ -417,6 +435,35 @@ def run_opm_case(ctx, case):
                     rename.get("manager_options_name", "options")}
             ctx.check("opm.renamed-keys", names == want,
                       "OptionManager|renamed-keys", case, {"keys": sorted(names)})
+    finally:
+        hy.reset_dict_keyname()
+    # an old file written with other key names is read, the names are set back to the
+    # current ones, and the manager is written again (what the renaming is for): the
+    # new dictionary uses the names in force when it is written and reads back equal
+    try:
+        hy.set_dict_keyname("context_name", "legacy_cfg")
+        hy.set_dict_keyname("manager_options_name", "legacy_grid")
+        legacy = opm.to_dict()
+        imported = hy.OptionManager.from_dict(json.loads(json.dumps(legacy)))
+        hy.reset_dict_keyname()
+        d_now = imported.to_dict()
+        again = hy.OptionManager.from_dict(json.loads(json.dumps(d_now)))
+        ctx.tag("opm:read-legacy-names-write-current")
+        ctx.api("to_dict/from_dict", 2)
+        ek1, ek2 = (opm == again), (again == opm)
+        samek = (canon(again.context) == canon(opm.context) and
+                 [canon(t) for t in again.tasks] == [canon(t) for t in opm.tasks] and
+                 canon({k: as_list(v) for k, v in again.options.items()}) ==
+                 canon({k: as_list(v) for k, v in opm.options.items()}))
+        ctx.check("opm.keynames-sequence", ek1 is True and ek2 is True and samek and
+                  "legacy_cfg" not in d_now and "legacy_grid" not in d_now,
+                  "OptionManager|roundtrip-after-key-names-changed", case,
+                  lambda: {"keys_written": sorted(d_now.keys()), "a==b": ek1, "b==a": ek2,
+                           "context_back": canon(again.context)})
+    except Exception as e:
+        ctx.check("opm.keynames-sequence", False,
+                  "OptionManager|roundtrip-after-key-names-changed|raises", case,
+                  {"exc": repr(e)[:200]})
     finally:
         hy.reset_dict_keyname()
     # a manager that differs must not compare equal
